@@ -125,6 +125,7 @@ protected:
             while (x && x->timestamp < reclaim_before) {
                 lru_list.pop(x);
                 if (x->rc == 0) {
+                    VERIF_COV(C_OBJCACHE_EXPIRE);
                     // make vector holds those shared_ptr
                     // prevent object destroy in critical zone
                     to_release.push_back(x->reset());
@@ -165,6 +166,7 @@ public:
                 if (_box) {
                     if (_recycle) _box->reset();
                     _box->release();
+                    VERIF_POINT(P_OBJCACHEV2_RELEASE);
                     if (_box->rc == 0) {
                         SCOPED_LOCK(_oc->maplock);
                         _oc->lru_list.pop(_box);
@@ -187,6 +189,7 @@ public:
                 _box->reset();
             }
             _box->release();
+            VERIF_POINT(P_OBJCACHEV2_RELEASE);
             if (_box->rc == 0) {
                 SCOPED_LOCK(_oc->maplock);
                 _oc->lru_list.pop(_box);
